@@ -34,7 +34,7 @@ def worker(job):
     repo, D, T, p, f, dt, s, down, sig, consts, batched = job
     it, w = get_interp(repo)
     data = it.get_module(DATA_MOD)
-    sp = {2: (2, 4) if down == 0 else (4, 2), 3: (2, 2, 2)}[D]
+    sp = {2: {0: (2, 4), 1: (4, 2), 2: (4, 8), 3: (8, 16)}[down], 3: (2, 2, 2) if down < 2 else (2 ** down,) * 3}[D]
     cfg = dict(D=D, T=T, past=p, future=f, dt=dt, skip=s, downsample=down, dynamic={tname(tuple(t)): c for t, c in sig}, constants={tname(tuple(t)): c for t, c in consts}, batched=batched)
     Bt = 2 if batched else None
     lead = (Bt,) if batched else ()
@@ -145,13 +145,11 @@ def run(ctx):
         pm.func(DATA_MOD, q)
         ev.functions.add(DATA_MOD + "." + q)
     jobs_i = []
-    Tmax = 13 if ctx.thorough() else 9
+    Tmax = 13  # the index families are cheap: the whole box in both tiers
     for T in range(2, Tmax):
         for p in (1, 2, 3):
             for f in (1, 2, 3):
                 for dt in (1, 2, 3):
-                    if not ctx.thorough() and (T + p + f + dt) % 3:
-                        continue
                     jobs_i.append((ctx.repo, T, p, f, dt))
     by = {}
     for job, r in ctx.pairs(idx_worker, jobs_i):
@@ -169,7 +167,7 @@ def run(ctx):
         for sig, consts in sigs:
             if D == 3 and len(sig) > 1:
                 continue
-            for T in ((5, 6, 8) if ctx.thorough() else (6,)):
+            for T in ((5, 6, 8) if ctx.thorough() else (6, 9)):
                 for p in (1, 2, 3):
                     for f in (1, 2):
                         for dt in (1, 2):
@@ -177,12 +175,21 @@ def run(ctx):
                                 for down in (0, 1):
                                     for batched in (False, True):
                                         if not ctx.thorough():
-                                            # quick: every (p, f, dt, s) for the un-batched, un-pooled variant; a third of the rest
+                                            # quick: every (p, f, dt, s) for the un-batched, un-pooled variant; a third of the rest;
+                                            # the longer trajectory only where the shorter one has no window
                                             if (down or batched) and dhash((p, f, dt, s, down, batched, len(sig))) % 3:
+                                                continue
+                                            if T == 9 and 6 - s - (p + f - 1) * dt > 0:
                                                 continue
                                         if down and D == 3 and not ctx.thorough():
                                             continue
                                         jobs.append((ctx.repo, D, T, p, f, dt, s, down, sig, consts, batched))
+    # deeper pooling (each level halves the extents: 2**downsample, not 2*downsample), non-square extents
+    for down in (2, 3):
+        for batched in (False, True):
+            for (p, f, dt, s_) in ((1, 1, 1, 0), (2, 1, 2, 1)):
+                for sig, consts in (sigs[:2] if (ctx.thorough() or not batched) else sigs[:1]):
+                    jobs.append((ctx.repo, 2, 5, p, f, dt, s_, down, sig, consts, batched))
     for job, r in ctx.pairs(worker, jobs):
         cfg = r["cfg"]
         nontriv = cfg["dt"] > 1 or cfg["skip"] > 0 or cfg["constants"] or len(cfg["dynamic"]) > 1
